@@ -97,9 +97,12 @@ STEP_TIMEOUT = 20.0
 
 IMPORTS = 'From JugV Require Import Model.LockPrims.\nFrom JugV Require Gen.LockConsts.'
 PREAMBLE = 'Definition P := LockConsts.lock_params %s.' % zlit(NOW)
-CASE_TYPE = 'backend * list (list (lockop * name)) * list cid * list obs * list (name * option Z) * bool'
-CHK = ('fun c => match c with (b, hists, s, tr, fin, wf) => '
-       'tie_check P b hists s tr fin && Bool.eqb (wf_run P b (init hists) s) wf end')
+CASE_TYPE = 'backend * list (list (lockop * name)) * list cid * list obs * list (name * option Z) * bool * list nat'
+CHK = ('fun c => match c with (b, hists, s, tr, fin, wf, lost) => '
+       'tie_check_lost P b hists s tr fin lost && Bool.eqb (wf_run P b (init hists) s) wf end')
+# redis commands that change the store (a lost reply after one of these: the operation happened, its answer is unknown)
+WRITE_CMDS = ('SET', 'SETNX', 'GETSET', 'DEL', 'APPEND', 'SETRANGE', 'SETEX', 'PSETEX', 'EXPIRE', 'PEXPIRE', 'PERSIST')
+FAULT_MODES = ('before', 'after')
 
 
 class HarnessError(Exception):
@@ -300,12 +303,15 @@ class Client:
         self.result = None              # ('ret', value) / ('exc', name) when the operation finished
         self.locks = {}
         self.thread = None
+        self.cur_lock = None            # the handle the running operation uses
+        self.ncmds = 0                  # redis commands issued so far (connection faults are placed by this index)
+        self.ghost_before = None
 
 
 class World:
     """One run: a backend, the shared store, the clients with their plans."""
 
-    def __init__(self, backend, plans, nnames, root, wild=False, ticks=None):
+    def __init__(self, backend, plans, nnames, root, wild=False, ticks=None, faults=None):
         self.backend = backend
         self.wild = wild
         self.nnames = nnames
@@ -317,6 +323,12 @@ class World:
         self.ticks = [d for d in (ticks or []) if d == 'reopen' or backend != 'keep']
         self.clock = None
         self.root = root
+        # connection faults (redis): the j-th command of client c is lost 'before' it reaches the server / 'after' it was applied
+        self.faults = {(int(c), int(j)): m for c, j, m in (faults or [])} if backend == 'redis' else {}
+        self.lost = {}          # index into events -> mode
+        self.disposition = {}   # index of the last event of a faulted operation that raised -> 'kept' (applied write) | 'deleted'
+        self.op_wf = []         # (index of the first event of the operation is not known yet: filled as (cid, k) -> wf)
+        self.op_wf = {}
         if self.ticks:      # the environment client: its steps are taken by the scheduler itself (no thread)
             self.clock = Client(len(self.clients), [('reopen' if d == 'reopen' else 'tick:%d' % d, 0) for d in self.ticks])
             self.clients.append(self.clock)
@@ -394,10 +406,12 @@ class World:
                 return
             op, n = cmd
             lock = cl.locks[n]
+            cl.cur_lock = lock
             try:
                 if self.backend == 'dict':
                     self.park(cl.cid, ('dict', op, n))
                     lock = cl.locks[n]          # (the store may have been reopened meanwhile: dict_lock methods are atomic)
+                    cl.cur_lock = lock
                 r = getattr(lock, op)()
                 if op == 'get' and r is True and self.backend in ('file', 'keep'):
                     # creation time on the simulated clock (the write of the PID line set the real one)
@@ -488,6 +502,8 @@ class World:
         if cl.inflight is None:
             op, n = cl.plan.pop(0)
             wf = self.wf_now(cid, op, n)
+            self.op_wf[(cid, len(cl.executed))] = wf
+            cl.ghost_before = self.ghost[n]
             cl.inflight = (op, n)
             cl.executed.append((op, n))
             cl.pending = None
@@ -507,13 +523,21 @@ class World:
             cl.pending = None
             cl.resp = None
             ntrace = len(self.server.trace) if self.server is not None else 0
+            mode = None
+            if self.server is not None and desc is not None and desc[0] == 'redis':
+                mode = self.faults.get((cid, cl.ncmds))
+                cl.ncmds += 1
+                if mode is not None:
+                    cl.cur_lock.redis.drop_next_command(mode)
             cl.go.release()
             self.wait_client(cl)
             if self.server is not None:
                 new = self.server.trace[ntrace:]
                 if len(new) != 1:
                     raise HarnessError('expected one redis command per step, saw %r' % (new,))
-                resp = ('ok', new[0][3])
+                resp = ('ok', new[0][3]) if mode is None else ('lost', mode, new[0][3])
+                if mode is not None:
+                    self.lost[len(self.events)] = mode
             else:
                 resp = cl.resp
         ret = None
@@ -524,6 +548,19 @@ class World:
                 self.ghost[n] = ('held', cid)
             elif op == 'fail' and canon_ret(ret) == 'T':
                 self.ghost[n] = ('failed',)
+            elif resp is not None and resp[0] == 'lost' and ret == ('exc', 'ConnectionError'):
+                # the operation raised because its command was lost: it gave no answer.  A write that the server applied has
+                # happened all the same (a get() leaks a lock its caller does not know about); anything else has not happened
+                if resp[1] == 'after' and desc[1] in WRITE_CMDS:
+                    self.disposition[len(self.events)] = 'kept'
+                    if op == 'get' and resp[2]:
+                        self.ghost[n] = ('held', cid)
+                    elif op == 'fail':
+                        self.ghost[n] = ('failed',)
+                else:
+                    self.disposition[len(self.events)] = 'deleted'
+                    if op == 'release':
+                        self.ghost[n] = cl.ghost_before
         self.events.append((cid, op, n, desc, resp, ret))
         self.sched.append(cid)
         return wf
@@ -558,9 +595,9 @@ def enc_value(v):
     return -1
 
 
-def run_world(backend, plans, nnames, root, k, chooser, wild=False, max_steps=400, ticks=None):
+def run_world(backend, plans, nnames, root, k, chooser, wild=False, max_steps=400, ticks=None, faults=None):
     """chooser(step_index, enabled) -> cid.  Returns the finished World."""
-    w = World(backend, plans, nnames, root, wild=wild, ticks=ticks)
+    w = World(backend, plans, nnames, root, wild=wild, ticks=ticks, faults=faults)
     w.all_wf = True
     IP.world = w
     try:
@@ -653,18 +690,18 @@ def render_prim(w, desc, resp):
     if kind == 'redis':
         cmd, args = desc[1], desc[2]
         n = key_name(w, args[0]) if args else None
-        if n is None or not ok:
+        if n is None:
             return 'PUnknown 5', 'RE'
         if cmd == 'GET' and len(args) == 1:
-            return 'RGet %d' % n, 'RV %s' % optlit(None if val is None else zlit(enc_value(val)))
+            return 'RGet %d' % n, ('RV %s' % optlit(None if val is None else zlit(enc_value(val))) if ok else 'RE')
         if cmd == 'SET' and len(args) == 2:
-            return 'RSet %d %s' % (n, zlit(enc_value(args[1]))), rb(bool(val))
+            return 'RSet %d %s' % (n, zlit(enc_value(args[1]))), (rb(bool(val)) if ok else 'RE')
         if cmd == 'GETSET' and len(args) == 2:
-            return 'RGetSet %d %s' % (n, zlit(enc_value(args[1]))), 'RV %s' % optlit(None if val is None else zlit(enc_value(val)))
+            return 'RGetSet %d %s' % (n, zlit(enc_value(args[1]))), ('RV %s' % optlit(None if val is None else zlit(enc_value(val))) if ok else 'RE')
         if cmd == 'SETNX' and len(args) == 2:
-            return 'RSetNx %d %s' % (n, zlit(enc_value(args[1]))), rb(bool(val))
+            return 'RSetNx %d %s' % (n, zlit(enc_value(args[1]))), (rb(bool(val)) if ok else 'RE')
         if cmd == 'DEL' and len(args) == 1:
-            return 'RDel %d' % n, rb(bool(val))
+            return 'RDel %d' % n, (rb(bool(val)) if ok else 'RE')
         return 'PUnknown 4', 'RE'
     return 'PUnknown 9', 'RE'       # any other access to the lock file / no primitive at all
 
@@ -672,15 +709,54 @@ def render_prim(w, desc, resp):
 RET_COQ = {'T': 'Some (OB true)', 'F': 'Some (OB false)', 'U': 'Some OU', 'E': 'Some OE', None: 'None'}
 
 
+def op_spans(w):
+    """the operations as runs of events: [(cid, k = index into the client's executed list, [event indices])]"""
+    spans, cur, count = [], {}, {}
+    for i, (cid, op, n, desc, resp, ret) in enumerate(w.events):
+        cur.setdefault(cid, []).append(i)
+        if ret is not None:
+            spans.append((cid, count.get(cid, 0), cur.pop(cid)))
+            count[cid] = count.get(cid, 0) + 1
+    for cid, idx in cur.items():            # (an operation still under way at the end of a run)
+        spans.append((cid, count.get(cid, 0), idx))
+    return spans
+
+
+def faulted_events(w):
+    """indices of all events of operations that had a command lost with its connection"""
+    out = set()
+    for cid, k, idx in op_spans(w):
+        if any(i in w.lost for i in idx):
+            out.update(idx)
+    return out
+
+
 def render_case(w):
-    hists = listlit([listlit(['(%s, %d)' % (op_coq(o), n) for o, n in cl.executed]) for cl in w.clients])
-    tr = []
-    for cid, op, n, desc, resp, ret in w.events:
+    """The run as a fault-free run of the model: an operation that raised because its command was lost gave no answer; if
+    the server had applied a write it stays in the history and the position of that primitive goes into `lost` (response
+    and result not compared); otherwise the operation is left out with all its primitives, as if never called."""
+    drop_ev, drop_op, lost_ev = set(), set(), set()
+    for cid, k, idx in op_spans(w):
+        d = w.disposition.get(idx[-1])
+        if d == 'deleted':
+            drop_ev.update(idx)
+            drop_op.add((cid, k))
+        elif d == 'kept':
+            lost_ev.add(idx[-1])
+    hists = listlit([listlit(['(%s, %d)' % (op_coq(o), n) for k, (o, n) in enumerate(cl.executed) if (cl.cid, k) not in drop_op])
+                     for cl in w.clients])
+    tr, sched, lost = [], [], []
+    for i, (cid, op, n, desc, resp, ret) in enumerate(w.events):
+        if i in drop_ev:
+            continue
+        if i in lost_ev:
+            lost.append(str(len(tr)))
         p, r = render_prim(w, desc, resp)
         tr.append('(%d, %s, %s, %s)' % (cid, p, r, RET_COQ[canon_ret(ret)]))
+        sched.append(str(w.sched[i]))
     fin = listlit(['(%d, %s)' % (n, optlit(None if v is None else zlit(v))) for n, v in w.final])
-    return '(%s, %s, %s, %s, %s, %s)' % (B_COQ[w.backend], hists, listlit([str(c) for c in w.sched]), listlit(tr), fin,
-                                        boollit(w.all_wf))
+    wf = all(v for key, v in w.op_wf.items() if key not in drop_op)
+    return '(%s, %s, %s, %s, %s, %s, %s)' % (B_COQ[w.backend], hists, listlit(sched), listlit(tr), fin, boollit(wf), listlit(lost))
 
 
 # ------------------------------------------------------------------------------------------------
@@ -706,11 +782,13 @@ def operations(w):
     """completed operations: dict(c, op, n, inv, ret, res)"""
     ops = []
     open_ = {}
+    fe = faulted_events(w)
     for i, (cid, op, n, desc, resp, ret) in enumerate(w.events):
         if cid not in open_:
             open_[cid] = i
         if ret is not None:
-            ops.append({'c': cid, 'op': op, 'n': n, 'inv': open_.pop(cid), 'ret': i, 'res': canon_ret(ret)})
+            ops.append({'c': cid, 'op': op, 'n': n, 'inv': open_.pop(cid), 'ret': i, 'res': canon_ret(ret),
+                        'lost': i in fe and ret == ('exc', 'ConnectionError')})
     return ops
 
 
@@ -734,6 +812,11 @@ def linearizable(ops):
             if o['inv'] > first_ret:
                 continue        # some other pending operation returned before this one was invoked
             st2, res = spec_apply(state, o['op'], o['c'])
+            if o.get('lost'):
+                # the operation raised because a command was lost: no answer; its effect may or may not have happened
+                if go(remaining - {i}, state) or (st2 != state and go(remaining - {i}, st2)):
+                    return True
+                continue
             if res == o['res'] and go(remaining - {i}, st2):
                 return True
         return False
@@ -752,9 +835,14 @@ def clause_violations(w):
     """the clauses of the property on the recorded events (same reading as Props/C04.v)"""
     bad = []
     ev = w.events
+    fe = faulted_events(w)
+
+    def no_answer(j):
+        """event j ends an operation that raised redis.ConnectionError because one of its commands was lost: expected"""
+        return j in fe and ev[j][5] == ('exc', 'ConnectionError')
     for i, (cid, op, n, desc, resp, ret) in enumerate(ev):
         r = canon_ret(ret)
-        if r == 'E':
+        if r == 'E' and not no_answer(i):
             bad.append(('operation raised', '%s() of client %d on %s raised %s' % (op, cid, lock_name(n), ret[1])))
         if op == 'get' and r == 'T':
             passed = reopened = 0
@@ -770,8 +858,9 @@ def clause_violations(w):
                     break
                 when = env_note(passed, reopened)
                 if op2 == 'get' and canon_ret(ret2) == 'T':
-                    bad.append(('two holders' + when[0], 'get() of client %d on %s returned True at step %d while client %d holds it since step %d%s'
-                                % (c2, lock_name(n), j, cid, i, when[1])))
+                    fault = (' after a lost connection', '; a command of that get() was lost with its connection') if j in fe or i in fe else ('', '')
+                    bad.append(('two holders' + fault[0] + when[0], 'get() of client %d on %s returned True at step %d while client %d holds it '
+                                'since step %d%s%s' % (c2, lock_name(n), j, cid, i, when[1], fault[1])))
                     break
                 if op2 == 'is_locked' and canon_ret(ret2) == 'F':
                     bad.append(('held lock reported free' + when[0], 'is_locked() of client %d on %s returned False at step %d while client %d '
@@ -790,7 +879,7 @@ def clause_violations(w):
                 if op2 == 'release':
                     break
                 r2 = canon_ret(ret2)
-                if r2 is None:
+                if r2 is None or no_answer(j):
                     continue
                 want = {'get': 'F', 'is_locked': 'T', 'is_failed': 'T', 'fail': 'T'}[op2]
                 if r2 != want:
@@ -799,16 +888,20 @@ def clause_violations(w):
                                 '%s() of client %d on %s returned %s at step %d after fail() returned True at step %d '
                                 'and before any release()%s' % (op2, c2, lock_name(n), r2, j, i, when[1])))
                     break
-        if op == 'release':
+        if op == 'release' and i not in fe:
             for j in range(i + 1, len(ev)):
                 c2, op2, n2, _, _, ret2 = ev[j]
                 if n2 == n and op2 == 'get' and ret2 is not None:
+                    if no_answer(j):
+                        break           # this get() may have taken the lock without telling anybody
                     if canon_ret(ret2) != 'T':
                         bad.append(('released lock not acquirable', 'first get() on %s to return after the release() at step %d returned %s (step %d)'
                                     % (lock_name(n), i, canon_ret(ret2), j)))
                     break
     for n in range(w.nnames):
-        first = [x for x in ev if x[2] == n and x[1] == 'get' and x[5] is not None][:1]
+        first = [x for j, x in enumerate(ev) if x[2] == n and x[1] == 'get' and x[5] is not None][:1]
+        if first and first[0][5] == ('exc', 'ConnectionError') and any(j in fe for j, x in enumerate(ev) if x is first[0]):
+            continue
         if first and canon_ret(first[0][5]) != 'T' and not any(x[2] == n and x[1] in ('release',) for x in ev):
             bad.append(('free lock not acquirable', 'first get() on %s to return returned %s' % (lock_name(n), canon_ret(first[0][5]))))
     return bad
@@ -898,13 +991,15 @@ REOPENSETS = [
     ([[G], [G]], [RO]), ([[G, F], [G, A]], [RO]), ([[G, L], [L, G]], [RO]), ([[G, F], [A, R, G]], [RO]),
     ([[G, R], [G]], [RO]), ([[G, F], [L, A]], [RO, RO]), ([[G], [L, G]], [RO, 8 * 86400]),
 ]
+# plans whose redis commands are lost with their connection, one command at a time, before / after the server applied it
+FAULTSETS = [[[G], [G]], [[G, F], [G, A]], [[G, R], [G, L]], [[G, F], [A, R, G]], [[G, L], [L, G]], [[G, F, R], [F, G]]]
 TICKSETS = [
     ([[G], [G]], [10 * 365 * 86400]), ([[G, L], [L, G]], [2 * 86400]), ([[G, F], [G, A]], [8 * 86400]),
     ([[G, R], [G]], [8 * 86400]), ([[G, F], [A, R, G]], [10 * 365 * 86400]), ([[G], [L, G]], [3600, 8 * 86400]),
 ]
 
 
-def enumerate_schedules(backend, plans, nnames, root, kbase, limit, rng, ticks=None):
+def enumerate_schedules(backend, plans, nnames, root, kbase, limit, rng, ticks=None, faults=None):
     """all schedules (every schedule exactly once: alternatives to the choices made after the forced prefix
     are queued), at most `limit` runs; the queue is served in random order so that a truncated
     enumeration is a spread-out sample"""
@@ -916,7 +1011,7 @@ def enumerate_schedules(backend, plans, nnames, root, kbase, limit, rng, ticks=N
             truncated = True
             break
         prefix = stack.pop(rng.randrange(len(stack)))
-        w = run_world(backend, plans, nnames, root, kbase + len(runs), fixed_chooser(prefix), ticks=ticks)
+        w = run_world(backend, plans, nnames, root, kbase + len(runs), fixed_chooser(prefix), ticks=ticks, faults=faults)
         runs.append(w)
         for i in range(len(prefix), len(w.choices)):
             chosen, en = w.choices[i]
@@ -932,7 +1027,7 @@ def what_for_tie(w):
 
 def replay_obj(w, plans, extra):
     o = {'backend': w.backend, 'nnames': w.nnames, 'plans': [[list(x) for x in p] for p in plans], 'wild': w.wild,
-         'ticks': list(w.ticks),
+         'ticks': list(w.ticks), 'faults': [[c, j, m] for (c, j), m in sorted(w.faults.items())],
          'schedule': list(w.sched),
          'executed': [[list(x) for x in cl.executed] for cl in w.clients],
          'events': [event_json(e) for e in w.events], 'final_store': w.final,
@@ -945,6 +1040,9 @@ def event_json(e):
     cid, op, n, desc, resp, ret = e
     if resp is None:
         r = None
+    elif resp[0] == 'lost':
+        r = 'redis.ConnectionError: the command was lost %s' % ('before it reached the server' if resp[1] == 'before' else
+                                                                'after the server applied it (-> %r)' % (resp[2],))
     elif resp[0] in ('ok', 'ret'):
         v = resp[1]
         r = int(v.st_mtime) if isinstance(v, os.stat_result) else (v.decode('latin1') if isinstance(v, bytes) else v)
@@ -973,6 +1071,8 @@ def judge(ck, w, plans, cases, meta, source):
     ck.count('operations', sum(len(cl.executed) for cl in w.clients))
     ck.count('well-formed' if w.all_wf else 'not-well-formed(tie only)')
     for e in w.events:
+        if e[4] is not None and e[4][0] == 'lost':
+            ck.count('connection lost:%s %s the server applied it' % (e[3][1], e[4][1]))
         if e[1] == 'reopen':
             ck.count('reopen:' + w.backend)
         elif is_tick(e[1]):
@@ -1043,6 +1143,16 @@ def run(ck):
                     ck.count('exhaustive:truncated-plan-sets' if trunc else 'exhaustive:complete-plan-sets')
                     for w in runs:
                         judge(ck, w, plans, cases, meta, 'exhaustive+reopen')
+            # ---- redis: every command of every client lost with its connection, before / after the server applied it
+            for plans in FAULTSETS:
+                for c in range(len(plans)):
+                    ncmd = sum(2 if o == 'fail' else 1 for o, _ in plans[c])
+                    for j in range(ncmd):
+                        for mode in FAULT_MODES:
+                            runs, trunc = enumerate_schedules('redis', plans, 1, root, k, ck.n(5, 400), ck.rng, faults=[[c, j, mode]])
+                            k += len(runs) + 1
+                            for w in runs:
+                                judge(ck, w, plans, cases, meta, 'exhaustive+connection-fault')
             # ---- the same with time passing between any two primitives (file, redis, dict)
             for plans, ticks in TICKSETS:
                 for backend in BACKENDS:
@@ -1060,7 +1170,11 @@ def run(ck):
                 backend = BACKENDS[i % 4]
                 wild = ck.rng.random() < 0.12
                 ticks = [ck.rng.choice(TICKS + (RO, RO, RO)) for _ in range(ck.rng.choice([0, 0, 1, 1, 2]))]
-                w = run_world(backend, plans, nnames, root, k, random_chooser(ck.rng), wild=wild, ticks=ticks)
+                faults = None
+                if backend == 'redis' and ck.rng.random() < 0.4:
+                    faults = [[ck.rng.randrange(len(plans)), ck.rng.randrange(4), ck.rng.choice(FAULT_MODES)]
+                              for _ in range(ck.rng.choice([1, 1, 2]))]
+                w = run_world(backend, plans, nnames, root, k, random_chooser(ck.rng), wild=wild, ticks=ticks, faults=faults)
                 k += 1
                 judge(ck, w, plans, cases, meta, 'random-wild' if wild else 'random')
                 if i in (3, 10, 17, 100):
@@ -1251,7 +1365,7 @@ def replay(obj):
     try:
         with jugrun.scratch_dir('jugv04r') as root:
             w = run_world(obj['backend'], plans, obj['nnames'], root, 0, fixed_chooser(obj['schedule']), wild=obj.get('wild', False),
-                          ticks=obj.get('ticks'))
+                          ticks=obj.get('ticks'), faults=obj.get('faults'))
     finally:
         IP.uninstall()
     print('backend: %s lock; %d clients; plans %s' % (w.backend, len(plans), obj['plans']))
